@@ -1,12 +1,1130 @@
-//! C19 — monitor not built yet (stub so that the registry is complete).
+//! C19 — global memory queries agree with the loaded memory image.
+//!
+//! Monitor shape: reference model. Every image under test comes with a *model*
+//! (list of segments: base, bytes, flags + byte order) written by the harness from
+//! the specification of the image source (direct construction, ELF program headers,
+//! ELF section headers of a relocatable object / kernel module, bare-metal config).
+//! The model is flattened into a byte map `address -> (segment, byte)`; every query
+//! function of `RuntimeMemoryImage` is called at every address around every segment
+//! boundary and judged against the byte map only.
+
+use crate::conv::*;
 use crate::core::*;
+use crate::prng::{hash_bytes, mix, Rng};
+use cwe_checker_lib::intermediate_representation::{Bitvector, RuntimeMemoryImage};
+use cwe_checker_lib::utils::binary::{BareMetalConfig, MemorySegment};
+use serde::{Deserialize, Serialize};
+use serde_json::{json, Value};
+use std::collections::BTreeMap;
 
 pub fn info() -> CheckInfo {
     CheckInfo {
         id: "C19",
-        rule: "(monitor not built yet)",
-        assumptions: &[],
-        run: |_cfg| Report::new(),
-        replay: |_cfg, _case| Report::new(),
+        rule: "RuntimeMemoryImage values (built directly from 1-5 disjoint segments, adjacent and gapped, sizes 0..32, all flag combinations, both byte orders, optionally shifted with add_global_memory_offset; parsed by RuntimeMemoryImage::new from generated ELF32/64 LE/BE ET_EXEC/ET_DYN files with PT_LOAD headers and from ET_REL kernel-module style files with alloc sections; built by new_from_bare_metal) are queried at EVERY address from 2 bytes before to 2 bytes after each segment with read (sizes 1,2,4,8; 3 and 16 on a quarter of the images), is_global_memory_address, is_address_writeable, is_interval_readable/writeable (lengths 0,1,2,4,8), get_ro_data_pointer_at_address and read_string_until_null_terminator; each answer is judged against a flat byte map address -> (segment, byte) written by the harness. ELF/bare-metal images are additionally compared segment by segment with the model. non-trivial = the queried address lies inside a non-empty segment or exactly at its end; distinct = hash of (image, address)",
+        assumptions: &[
+            "read-only means write_flag == false (the read flag is not consulted by read); 'unknown content' is Ok(None)",
+            "segment ends are representable: base + len <= u64::MAX - 32 (no address arithmetic wraps); read sizes >= 1; address bitvectors are at most 8 bytes wide",
+            "intervals are half-open [start, end): Ok(flag) is required when start lies in segment S and end <= end of S, Err when start lies in no segment or end exceeds S; empty intervals (end == start) are only checked for absence of panics and consistency",
+            "is_global_memory_address(a) is judged as membership of the address a in some segment (the property does not give it a size parameter)",
+            "string reads: required to succeed with the stored bytes when the address lies in a read-only segment that contains a NUL at or after the address and the bytes before it are valid UTF-8; whenever a string is returned (any segment) it must equal the bytes stored in the image from the address up to the next NUL; no-NUL-until-segment-end and non-UTF-8 contents may fail",
+            "ELF models: PT_LOAD -> bytes = file[p_offset..p_offset+p_filesz] zero-filled to p_memsz at p_vaddr with PF_R/PF_W/PF_X; ET_REL -> all SHF_ALLOC, non-SHT_NULL, non-empty sections in table order, each placed at the next address that satisfies sh_addralign starting from 0, SHT_NOBITS zero-filled, readable, writable iff SHF_WRITE, executable iff SHF_EXECINSTR; generated empty alloc sections have alignment <= 1 so that skipping or keeping them gives the same layout",
+            "bare metal: flash segment (file bytes at flash base, rwx) and RAM segment (zeroes, rw-); configurations rejected by new_from_bare_metal are counted as inconclusive, not as verdicts",
+            "verdicts on the release profile",
+        ],
+        run,
+        replay,
     }
+}
+
+// ---------------------------------------------------------------------------
+// Model
+
+#[derive(Clone, Debug, Serialize, Deserialize, PartialEq, Eq)]
+struct Seg {
+    base: u64,
+    bytes: Vec<u8>,
+    r: bool,
+    w: bool,
+    x: bool,
+}
+
+impl Seg {
+    fn end(&self) -> u64 {
+        self.base + self.bytes.len() as u64
+    }
+}
+
+#[derive(Clone, Debug, Serialize, Deserialize)]
+struct Model {
+    segs: Vec<Seg>,
+    le: bool,
+}
+
+/// How the image under test is produced (everything needed to rebuild it).
+#[derive(Clone, Debug, Serialize, Deserialize)]
+enum Source {
+    /// segments as given, then `add_global_memory_offset(offset)` if non-zero
+    Direct { segs: Vec<Seg>, le: bool, is_lkm: bool, offset: u64 },
+    /// `RuntimeMemoryImage::new(file)` then optional offset
+    Elf { file_hex: String, what: String, offset: u64, expect_lkm: bool },
+    BareMetal { binary_hex: String, config: BareMetalConfig },
+}
+
+#[derive(Clone, Debug, Serialize, Deserialize)]
+struct Case {
+    source: Source,
+    model: Model,
+    extra_sizes: bool,
+}
+
+fn hex(b: &[u8]) -> String {
+    b.iter().map(|x| format!("{x:02x}")).collect()
+}
+
+fn unhex(s: &str) -> Vec<u8> {
+    (0..s.len() / 2).filter_map(|i| u8::from_str_radix(&s[2 * i..2 * i + 2], 16).ok()).collect()
+}
+
+struct Flat {
+    map: BTreeMap<u64, (usize, u8)>,
+}
+
+impl Flat {
+    fn new(model: &Model) -> Flat {
+        let mut map = BTreeMap::new();
+        for (i, s) in model.segs.iter().enumerate() {
+            for (k, b) in s.bytes.iter().enumerate() {
+                map.insert(s.base + k as u64, (i, *b));
+            }
+        }
+        Flat { map }
+    }
+    fn seg_of(&self, a: u64) -> Option<usize> {
+        self.map.get(&a).map(|(s, _)| *s)
+    }
+    /// The segment containing all of `a .. a+n` (n >= 1).
+    fn range_in_one(&self, a: u64, n: u64) -> Option<usize> {
+        let s = self.seg_of(a)?;
+        for k in 1..n {
+            if self.seg_of(a.checked_add(k)?) != Some(s) {
+                return None;
+            }
+        }
+        Some(s)
+    }
+    fn byte(&self, a: u64) -> Option<u8> {
+        self.map.get(&a).map(|(_, b)| *b)
+    }
+}
+
+fn addr_bv(a: u64, width: u32) -> Bitvector {
+    to_bv(crate::pref::V::new(a as u128, width))
+}
+
+// ---------------------------------------------------------------------------
+// Building the image under test from a source
+
+fn build_image(src: &Source) -> Result<Result<RuntimeMemoryImage, String>, String> {
+    match src {
+        Source::Direct { segs, le, is_lkm, offset } => {
+            let mut img = RuntimeMemoryImage {
+                memory_segments: segs
+                    .iter()
+                    .map(|s| MemorySegment { bytes: s.bytes.clone(), base_address: s.base, read_flag: s.r, write_flag: s.w, execute_flag: s.x })
+                    .collect(),
+                is_little_endian: *le,
+                is_lkm: *is_lkm,
+            };
+            if *offset != 0 {
+                guard(|| img.add_global_memory_offset(*offset))?;
+            }
+            Ok(Ok(img))
+        }
+        Source::Elf { file_hex, offset, .. } => {
+            let file = unhex(file_hex);
+            match guard(|| RuntimeMemoryImage::new(&file).map_err(|e| e.to_string()))? {
+                Ok(mut img) => {
+                    if *offset != 0 {
+                        guard(|| img.add_global_memory_offset(*offset))?;
+                    }
+                    Ok(Ok(img))
+                }
+                Err(e) => Ok(Err(e)),
+            }
+        }
+        Source::BareMetal { binary_hex, config } => {
+            let bin = unhex(binary_hex);
+            guard(|| RuntimeMemoryImage::new_from_bare_metal(&bin, config).map_err(|e| e.to_string()))
+        }
+    }
+}
+
+fn source_kind(src: &Source) -> String {
+    match src {
+        Source::Direct { offset, .. } => if *offset == 0 { "direct".into() } else { "direct+offset".into() },
+        Source::Elf { what, .. } => what.clone(),
+        Source::BareMetal { .. } => "bare-metal".into(),
+    }
+}
+
+// ---------------------------------------------------------------------------
+// The check of one image
+
+struct Ctx<'a> {
+    case: &'a Case,
+    kind: String,
+    size: u64,
+}
+
+impl Ctx<'_> {
+    fn viol(&self, rep: &mut Report, what: &str, query: Value, detail: String) {
+        let mut c = serde_json::to_value(self.case).unwrap_or(Value::Null);
+        c["query"] = query;
+        let sig = if what.starts_with("construct:") { format!("{}:{what}", self.kind_class()) } else { format!("query:{what}") };
+        rep.violation(sig, None, detail, c, self.size);
+    }
+    /// coarse source class for signatures
+    fn kind_class(&self) -> &str {
+        if self.kind.starts_with("direct") {
+            "image"
+        } else if self.kind.starts_with("elf-rel") {
+            "elf-rel"
+        } else if self.kind.starts_with("elf") {
+            "elf-exec"
+        } else {
+            "bare-metal"
+        }
+    }
+}
+
+fn seg_desc(m: &Model) -> String {
+    let mut v: Vec<String> = Vec::new();
+    for s in &m.segs {
+        v.push(format!(
+            "[{:#x},{:#x}){}{}{}",
+            s.base,
+            s.end(),
+            if s.r { "r" } else { "-" },
+            if s.w { "w" } else { "-" },
+            if s.x { "x" } else { "-" }
+        ));
+    }
+    format!("{} {}", if m.le { "LE" } else { "BE" }, v.join(" "))
+}
+
+fn check_case(case: &Case, rep: &mut Report) {
+    let kind = source_kind(&case.source);
+    let size = case.model.segs.iter().map(|s| 8 + s.bytes.len() as u64).sum::<u64>()
+        + match &case.source {
+            Source::Direct { offset, .. } => (*offset != 0) as u64,
+            Source::Elf { file_hex, .. } => 1000 + file_hex.len() as u64,
+            Source::BareMetal { .. } => 500,
+        };
+    let ctx = Ctx { case, kind: kind.clone(), size };
+    let model = &case.model;
+    let img = match build_image(&case.source) {
+        Err(p) => {
+            rep.eval();
+            ctx.viol(rep, &format!("construct:panic:{}", panic_site(&p)), json!(null), format!("constructing the image ({kind}) panicked: {p}; model {}", seg_desc(model)));
+            return;
+        }
+        Ok(Err(e)) => {
+            rep.eval();
+            match &case.source {
+                Source::BareMetal { config, .. } => {
+                    rep.inconclusive(&format!("bare-metal-config-rejected:{}", bare_metal_class(config, unhex_len(&case.source))));
+                    rep.note(format!("new_from_bare_metal rejected a configuration whose binary fits into the address space: {config:?} with {} bytes: {e}", unhex_len(&case.source)));
+                }
+                _ => ctx.viol(rep, "construct:rejected", json!(null), format!("RuntimeMemoryImage::new rejected a generated well-formed ELF file ({kind}): {e}; model {}", seg_desc(model))),
+            }
+            return;
+        }
+        Ok(Ok(img)) => img,
+    };
+    rep.obs(&format!("source:{kind}"));
+
+    // ---- structural comparison (non-empty segments, as sets ordered by base address)
+    rep.eval();
+    if img.is_little_endian != model.le {
+        ctx.viol(rep, "construct:byte-order", json!(null), format!("image byte order little_endian={} but the source says {}", img.is_little_endian, model.le));
+    }
+    if let Source::Elf { expect_lkm, .. } = &case.source {
+        if img.is_lkm != *expect_lkm {
+            ctx.viol(rep, "construct:is_lkm", json!(null), format!("is_lkm = {} but expected {} (both .modinfo and .gnu.linkonce.this_module present <=> kernel module)", img.is_lkm, expect_lkm));
+        }
+    }
+    if !matches!(case.source, Source::Direct { offset: 0, .. }) {
+        let mut got: Vec<Seg> = img
+            .memory_segments
+            .iter()
+            .filter(|s| !s.bytes.is_empty())
+            .map(|s| Seg { base: s.base_address, bytes: s.bytes.clone(), r: s.read_flag, w: s.write_flag, x: s.execute_flag })
+            .collect();
+        let mut exp: Vec<Seg> = model.segs.iter().filter(|s| !s.bytes.is_empty()).cloned().collect();
+        got.sort_by_key(|s| s.base);
+        exp.sort_by_key(|s| s.base);
+        if got != exp {
+            let what = if got.len() != exp.len() {
+                "construct:segment-count"
+            } else if got.iter().zip(exp.iter()).any(|(g, e)| g.base != e.base) {
+                "construct:segment-base"
+            } else if got.iter().zip(exp.iter()).any(|(g, e)| g.bytes != e.bytes) {
+                "construct:segment-bytes"
+            } else {
+                "construct:segment-flags"
+            };
+            let show = |v: &[Seg]| v.iter().map(|s| format!("[{:#x}+{}{}{}{} {}]", s.base, s.bytes.len(), if s.r { " r" } else { " -" }, if s.w { "w" } else { "-" }, if s.x { "x" } else { "-" }, hex(&s.bytes))).collect::<Vec<_>>().join(" ");
+            ctx.viol(rep, what, json!(null), format!("segments of the constructed image ({kind}) differ from the model: got {} expected {}", show(&got), show(&exp)));
+            // the model does not describe this image: sweeping it would only repeat the same defect under many signatures
+            return;
+        }
+    }
+
+    // ---- query sweep
+    let flat = Flat::new(model);
+    let mut addrs: Vec<u64> = Vec::new();
+    for s in &model.segs {
+        let lo = s.base.saturating_sub(2);
+        let hi = s.end() + 2;
+        let mut a = lo;
+        while a <= hi {
+            addrs.push(a);
+            a += 1;
+        }
+    }
+    addrs.sort_unstable();
+    addrs.dedup();
+    let max_addr = addrs.last().copied().unwrap_or(0);
+    let mut widths: Vec<u32> = vec![8];
+    if max_addr < (1u64 << 32) - 64 {
+        widths.push(4);
+    }
+    if max_addr < (1u64 << 16) - 64 {
+        widths.push(2);
+    }
+    let img_fp = hash_bytes(serde_json::to_string(&case.model).unwrap_or_default().as_bytes());
+    let read_sizes: &[u64] = if case.extra_sizes { &[1, 2, 3, 4, 8, 16] } else { &[1, 2, 4, 8] };
+    let desc = seg_desc(model);
+
+    for (ai, &a) in addrs.iter().enumerate() {
+        let in_seg = flat.seg_of(a);
+        let at_end = model.segs.iter().any(|s| !s.bytes.is_empty() && s.end() == a);
+        if in_seg.is_some() || at_end {
+            rep.nontrivial(mix(img_fp, a));
+        }
+        // rotate address widths so that every width is used on every image without multiplying the cost
+        let width = widths[ai % widths.len()];
+        let abv = addr_bv(a, width);
+
+        // -- read
+        for &n in read_sizes {
+            rep.eval();
+            let exp_seg = flat.range_in_one(a, n);
+            let q = || json!({"fn":"read","address":format!("{a:#x}"),"address_bytes":width,"size":n});
+            let got = guard(|| img.read(&abv, bs(n as u32)).map_err(|e| e.to_string()));
+            let class;
+            match (&got, exp_seg) {
+                (Err(p), _) => {
+                    class = "panic";
+                    ctx.viol(rep, &format!("read:panic:{}", panic_site(p)), q(), format!("read({a:#x},{n}) panicked: {p}; image {desc}"));
+                }
+                (Ok(Ok(Some(bv))), Some(s)) if !model.segs[s].w => {
+                    class = "bytes";
+                    let mut v: u128 = 0;
+                    for k in 0..n {
+                        let b = flat.byte(a + k).unwrap_or(0) as u128;
+                        if model.le {
+                            v |= b << (8 * k);
+                        } else {
+                            v = (v << 8) | b;
+                        }
+                    }
+                    let g = from_bv_checked(bv);
+                    if g != Some((v, n as u32)) {
+                        let what = if g.map(|x| x.1) != Some(n as u32) {
+                            "read:wrong-width"
+                        } else if n > 1 && g.map(|x| x.0) == Some(swap_bytes(v, n)) && swap_bytes(v, n) != v {
+                            "read:byte-order-reversed"
+                        } else {
+                            "read:wrong-bytes"
+                        };
+                        ctx.viol(rep, what, q(), format!("read({a:#x},{n}) = {bv:?} but the image ({}) stores {v:#x} ({n} bytes) there; image {desc}", if model.le { "little endian" } else { "big endian" }));
+                    }
+                }
+                (Ok(Ok(Some(bv))), Some(_)) => {
+                    class = "bytes-for-writable";
+                    ctx.viol(rep, "read:bytes-from-writable-segment", q(), format!("read({a:#x},{n}) = {bv:?} although the range lies in a writable segment (must be 'unknown content'); image {desc}"));
+                }
+                (Ok(Ok(Some(bv))), None) => {
+                    class = "bytes-for-invalid";
+                    ctx.viol(rep, "read:value-for-range-not-in-one-segment", q(), format!("read({a:#x},{n}) = {bv:?} although the range does not lie in one segment (must fail); image {desc}"));
+                }
+                (Ok(Ok(None)), Some(s)) if model.segs[s].w => class = "unknown",
+                (Ok(Ok(None)), Some(_)) => {
+                    class = "unknown-for-ro";
+                    ctx.viol(rep, "read:unknown-for-read-only-segment", q(), format!("read({a:#x},{n}) = 'unknown content' although the range lies in a read-only segment; image {desc}"));
+                }
+                (Ok(Ok(None)), None) => {
+                    class = "unknown-for-invalid";
+                    ctx.viol(rep, "read:unknown-for-range-not-in-one-segment", q(), format!("read({a:#x},{n}) = 'unknown content' although the range does not lie in one segment (must fail); image {desc}"));
+                }
+                (Ok(Err(e)), Some(s)) => {
+                    class = "fail-for-valid";
+                    let pos = if a + n == model.segs[s].end() { "at-segment-end" } else if a == model.segs[s].base { "at-segment-start" } else { "inside" };
+                    ctx.viol(rep, &format!("read:fails-for-range-in-one-segment:{pos}"), q(), format!("read({a:#x},{n}) failed ({e}) although the whole range lies in segment {s}; image {desc}"));
+                }
+                (Ok(Err(_)), None) => {
+                    class = if in_seg.is_none() {
+                        "fail:outside"
+                    } else if flat.seg_of(a + n - 1).is_some() && (1..n).all(|k| flat.seg_of(a + k).is_some()) {
+                        "fail:spans-adjacent-segments"
+                    } else {
+                        "fail:crosses-segment-end"
+                    };
+                }
+            }
+            if n == 4 {
+                rep.obs(&format!("read:{class}"));
+            }
+        }
+
+        // -- is_global_memory_address
+        rep.eval();
+        {
+            let q = || json!({"fn":"is_global_memory_address","address":format!("{a:#x}"),"address_bytes":width});
+            match guard(|| img.is_global_memory_address(&abv)) {
+                Err(p) => ctx.viol(rep, &format!("is_global:panic:{}", panic_site(&p)), q(), format!("is_global_memory_address({a:#x}) panicked: {p}")),
+                Ok(got) => match (got, in_seg) {
+                    (true, None) => ctx.viol(rep, "is_global:true-for-address-outside-all-segments", q(), format!("is_global_memory_address({a:#x}:{width}) = true but no segment contains the address; image {desc}")),
+                    (false, Some(s)) => {
+                        let what = if flat.range_in_one(a, width as u64).is_some() { "is_global:false-for-address-inside-segment" } else { "is_global:false-for-address-in-last-bytes-of-segment" };
+                        ctx.viol(rep, what, q(), format!("is_global_memory_address({a:#x}:{width}) = false but segment {s} [{:#x},{:#x}) contains the address (is_address_writeable answers {:?} for the same address); image {desc}", model.segs[s].base, model.segs[s].end(), img.is_address_writeable(&abv).ok()));
+                    }
+                    _ => (),
+                },
+            }
+        }
+
+        // -- is_address_writeable
+        rep.eval();
+        {
+            let q = || json!({"fn":"is_address_writeable","address":format!("{a:#x}"),"address_bytes":width});
+            match (guard(|| img.is_address_writeable(&abv).map_err(|e| e.to_string())), in_seg) {
+                (Err(p), _) => ctx.viol(rep, &format!("is_address_writeable:panic:{}", panic_site(&p)), q(), format!("is_address_writeable({a:#x}) panicked: {p}")),
+                (Ok(Ok(f)), Some(s)) => {
+                    if f != model.segs[s].w {
+                        ctx.viol(rep, "is_address_writeable:wrong-flag", q(), format!("is_address_writeable({a:#x}) = {f} but the containing segment {s} has write flag {}; image {desc}", model.segs[s].w));
+                    }
+                }
+                (Ok(Ok(f)), None) => ctx.viol(rep, "is_address_writeable:answer-for-address-outside", q(), format!("is_address_writeable({a:#x}) = Ok({f}) but no segment contains the address; image {desc}")),
+                (Ok(Err(e)), Some(s)) => ctx.viol(rep, "is_address_writeable:fails-inside-segment", q(), format!("is_address_writeable({a:#x}) failed ({e}) but segment {s} contains the address; image {desc}")),
+                (Ok(Err(_)), None) => (),
+            }
+        }
+
+        // -- get_ro_data_pointer_at_address
+        rep.eval();
+        {
+            let q = || json!({"fn":"get_ro_data_pointer_at_address","address":format!("{a:#x}"),"address_bytes":width});
+            let got = guard(|| img.get_ro_data_pointer_at_address(&abv).map(|(sl, i)| (sl.to_vec(), i)).map_err(|e| e.to_string()));
+            match (got, in_seg) {
+                (Err(p), _) => ctx.viol(rep, &format!("ro_pointer:panic:{}", panic_site(&p)), q(), format!("get_ro_data_pointer_at_address({a:#x}) panicked: {p}")),
+                (Ok(Ok((sl, i))), Some(s)) if !model.segs[s].w => {
+                    let seg = &model.segs[s];
+                    if sl != seg.bytes || i as u64 != a - seg.base {
+                        ctx.viol(rep, "ro_pointer:wrong-target", q(), format!("get_ro_data_pointer_at_address({a:#x}) = (slice of {} bytes, index {i}); expected the {} bytes of segment {s} and index {}; image {desc}", sl.len(), seg.bytes.len(), a - seg.base));
+                    }
+                }
+                (Ok(Ok((_, i))), Some(s)) => ctx.viol(rep, "ro_pointer:pointer-into-writable-segment", q(), format!("get_ro_data_pointer_at_address({a:#x}) = Ok(index {i}) but the containing segment {s} is writable; image {desc}")),
+                (Ok(Ok((_, i))), None) => ctx.viol(rep, "ro_pointer:pointer-for-address-outside", q(), format!("get_ro_data_pointer_at_address({a:#x}) = Ok(index {i}) but no segment contains the address; image {desc}")),
+                (Ok(Err(e)), Some(s)) if !model.segs[s].w => ctx.viol(rep, "ro_pointer:fails-inside-read-only-segment", q(), format!("get_ro_data_pointer_at_address({a:#x}) failed ({e}) but the read-only segment {s} contains the address; image {desc}")),
+                (Ok(Err(_)), _) => (),
+            }
+        }
+
+        // -- read_string_until_null_terminator
+        rep.eval();
+        {
+            let q = || json!({"fn":"read_string_until_null_terminator","address":format!("{a:#x}"),"address_bytes":width});
+            // stored bytes from a up to (excluding) the first NUL inside the containing segment
+            let stored_in_seg: Option<Vec<u8>> = in_seg.and_then(|s| {
+                let seg = &model.segs[s];
+                let tail = &seg.bytes[(a - seg.base) as usize..];
+                tail.iter().position(|b| *b == 0).map(|p| tail[..p].to_vec())
+            });
+            let got = guard(|| img.read_string_until_null_terminator(&abv).map(|s| s.to_string()).map_err(|e| e.to_string()));
+            let class;
+            match got {
+                Err(p) => {
+                    class = "panic";
+                    ctx.viol(rep, &format!("string:panic:{}", panic_site(&p)), q(), format!("read_string_until_null_terminator({a:#x}) panicked: {p}; image {desc}"));
+                }
+                Ok(Ok(s)) => {
+                    // any returned string must be what the image stores from `a` to the next NUL
+                    let sb = s.as_bytes();
+                    let content_ok = (0..sb.len()).all(|k| flat.byte(a + k as u64) == Some(sb[k]) && sb[k] != 0) && flat.byte(a + sb.len() as u64) == Some(0);
+                    if !content_ok {
+                        class = "wrong";
+                        let what = if in_seg.is_none() { "string:string-for-address-outside" } else { "string:wrong-content" };
+                        ctx.viol(rep, what, q(), format!("read_string_until_null_terminator({a:#x}) = {s:?} but the image stores {:?} there; image {desc}", stored_in_seg.as_ref().map(|b| String::from_utf8_lossy(b).to_string())));
+                    } else {
+                        class = if s.is_empty() { "ok-empty" } else { "ok" };
+                    }
+                }
+                Ok(Err(e)) => {
+                    let ro = in_seg.map(|s| !model.segs[s].w).unwrap_or(false);
+                    match (&stored_in_seg, ro) {
+                        (Some(b), true) if std::str::from_utf8(b).is_ok() => {
+                            class = "fail-for-valid";
+                            let s = in_seg.unwrap_or(0);
+                            let follows = model.segs.iter().any(|o| !o.bytes.is_empty() && o.end() == a);
+                            let pos = if a == model.segs[s].base && follows { "at-start-of-adjacent-segment" } else if a == model.segs[s].base { "at-segment-start" } else { "inside" };
+                            ctx.viol(rep, &format!("string:fails-in-read-only-segment:{pos}"), q(), format!("read_string_until_null_terminator({a:#x}) failed ({e}) but the read-only segment {s} stores the NUL-terminated string {:?} there; image {desc}", String::from_utf8_lossy(b)));
+                        }
+                        (Some(_), true) => class = "fail:non-utf8",
+                        (Some(_), false) => class = "fail:writable",
+                        (None, _) if in_seg.is_some() => class = "fail:no-nul-until-segment-end",
+                        _ => class = "fail:outside",
+                    }
+                }
+            }
+            rep.obs(&format!("string:{class}"));
+            if class.starts_with("ok") && in_seg.map(|s| a == model.segs[s].base).unwrap_or(false) && model.segs.iter().any(|o| !o.bytes.is_empty() && o.end() == a) {
+                rep.obs("string:ok-at-first-byte-of-adjacent-segment");
+            }
+        }
+
+        // -- intervals
+        for n in [0u64, 1, 2, 4, 8] {
+            let end = a + n;
+            for which in ["readable", "writeable"] {
+                rep.eval();
+                let q = || json!({"fn":format!("is_interval_{which}"),"start":format!("{a:#x}"),"end":format!("{end:#x}")});
+                let got = guard(|| if which == "readable" { img.is_interval_readable(a, end) } else { img.is_interval_writeable(a, end) }.map_err(|e| e.to_string()));
+                let flag_of = |s: usize| if which == "readable" { model.segs[s].r } else { model.segs[s].w };
+                match (got, in_seg) {
+                    (Err(p), _) => ctx.viol(rep, &format!("interval:panic:{}", panic_site(&p)), q(), format!("is_interval_{which}({a:#x},{end:#x}) panicked: {p}")),
+                    (Ok(Ok(f)), Some(s)) => {
+                        if n > 0 && end > model.segs[s].end() {
+                            ctx.viol(rep, &format!("interval:{which}:answer-for-interval-leaving-segment"), q(), format!("is_interval_{which}({a:#x},{end:#x}) = Ok({f}) but the interval leaves segment {s} [{:#x},{:#x}); image {desc}", model.segs[s].base, model.segs[s].end()));
+                        } else if f != flag_of(s) {
+                            ctx.viol(rep, &format!("interval:{which}:wrong-flag"), q(), format!("is_interval_{which}({a:#x},{end:#x}) = {f} but segment {s} has that flag = {}; image {desc}", flag_of(s)));
+                        }
+                    }
+                    (Ok(Ok(f)), None) => ctx.viol(rep, &format!("interval:{which}:answer-for-start-outside"), q(), format!("is_interval_{which}({a:#x},{end:#x}) = Ok({f}) but the start address lies in no segment; image {desc}")),
+                    (Ok(Err(e)), Some(s)) => {
+                        if n > 0 && end <= model.segs[s].end() {
+                            let pos = if end == model.segs[s].end() { "ending-at-segment-end" } else { "inside" };
+                            ctx.viol(rep, &format!("interval:{which}:fails-inside-segment:{pos}"), q(), format!("is_interval_{which}({a:#x},{end:#x}) failed ({e}) but the interval lies in segment {s} [{:#x},{:#x}); image {desc}", model.segs[s].base, model.segs[s].end()));
+                        }
+                    }
+                    (Ok(Err(_)), None) => (),
+                }
+            }
+        }
+    }
+
+    // layout statistics
+    let mut sorted: Vec<&Seg> = model.segs.iter().filter(|s| !s.bytes.is_empty()).collect();
+    sorted.sort_by_key(|s| s.base);
+    for w in sorted.windows(2) {
+        rep.obs(if w[0].end() == w[1].base { "layout:adjacent-pair" } else { "layout:gapped-pair" });
+    }
+    rep.obs(&format!("layout:segments={}", model.segs.len().min(9)));
+    rep.obs(if model.le { "byte-order:LE" } else { "byte-order:BE" });
+    for s in &model.segs {
+        rep.obs(&format!("flags:{}{}{}", if s.r { "r" } else { "-" }, if s.w { "w" } else { "-" }, if s.x { "x" } else { "-" }));
+        if s.bytes.is_empty() {
+            rep.obs("layout:empty-segment");
+        }
+    }
+}
+
+fn from_bv_checked(bv: &Bitvector) -> Option<(u128, u32)> {
+    use apint::Width;
+    let bits = bv.width().to_usize();
+    if bits % 8 != 0 || bits > 128 {
+        return None;
+    }
+    let v = from_bv(bv);
+    Some((v.v, v.w))
+}
+
+fn swap_bytes(v: u128, n: u64) -> u128 {
+    let mut out = 0u128;
+    for k in 0..n {
+        out |= ((v >> (8 * k)) & 0xff) << (8 * (n - 1 - k));
+    }
+    out
+}
+
+fn unhex_len(src: &Source) -> usize {
+    match src {
+        Source::BareMetal { binary_hex, .. } => binary_hex.len() / 2,
+        Source::Elf { file_hex, .. } => file_hex.len() / 2,
+        _ => 0,
+    }
+}
+
+fn bare_metal_class(config: &BareMetalConfig, len: usize) -> String {
+    let bits = config.processor_id.split(':').nth(2).and_then(|b| b.parse::<u32>().ok()).unwrap_or(0);
+    let base = u64::from_str_radix(config.flash_base_address.trim_start_matches("0x"), 16).unwrap_or(0);
+    if bits >= 64 {
+        "64-bit-address-space".into()
+    } else if (base + len as u64) == (1u64 << bits) {
+        format!("binary-ends-at-top-of-{bits}-bit-address-space")
+    } else {
+        format!("other-{bits}-bit")
+    }
+}
+
+// ---------------------------------------------------------------------------
+// Generators
+
+fn gen_bytes(rng: &mut Rng, len: usize) -> Vec<u8> {
+    let mode = rng.below(8);
+    let mut v = Vec::with_capacity(len);
+    for i in 0..len {
+        let b = match mode {
+            0 => rng.below(256) as u8,                                         // anything
+            1 => 1 + rng.below(255) as u8,                                     // no NUL at all
+            2 => if rng.chance(1, 4) { 0 } else { 0x20 + rng.below(95) as u8 }, // ASCII strings
+            3 => 0x41 + rng.below(26) as u8,                                   // ASCII without NUL
+            4 => 0,                                                            // all zero
+            5 => if i + 1 == len { 0 } else { 0x61 + rng.below(26) as u8 },     // NUL only at the very end
+            6 => if rng.chance(1, 5) { 0 } else if rng.chance(1, 6) { 0x80 + rng.below(128) as u8 } else { 0x30 + rng.below(75) as u8 }, // some non-UTF-8
+            _ => if i == 0 { 0 } else { rng.below(256) as u8 },                 // NUL first
+        };
+        v.push(b);
+    }
+    if mode == 2 && len >= 3 && rng.chance(1, 3) {
+        // a valid multi-byte UTF-8 character
+        let at = rng.usize_below(len - 2);
+        v[at] = 0xc3;
+        v[at + 1] = 0xa9;
+    }
+    v
+}
+
+fn gen_len(rng: &mut Rng) -> usize {
+    match rng.below(10) {
+        0 => 0,
+        1 => 1,
+        2 => *rng.pick(&[2usize, 3, 4]),
+        3 => *rng.pick(&[7usize, 8, 9]),
+        4 => *rng.pick(&[15usize, 16, 17, 31, 32]),
+        _ => rng.range_usize(0, 32),
+    }
+}
+
+/// 1..=5 disjoint segments (sorted by address) starting near `start`.
+fn gen_layout(rng: &mut Rng, start: u64, max_segs: usize) -> Vec<Seg> {
+    let n = rng.range_usize(1, max_segs);
+    let mut cursor = start;
+    let mut segs = Vec::new();
+    for i in 0..n {
+        if i > 0 || rng.bool() {
+            cursor += match rng.below(8) {
+                0..=3 => 0, // adjacent
+                4 => 1,
+                5 => 2,
+                6 => 3 + rng.below(6),
+                _ => 16 + rng.below(4096),
+            };
+        }
+        let len = gen_len(rng);
+        let flags = rng.below(8);
+        segs.push(Seg { base: cursor, bytes: gen_bytes(rng, len), r: flags & 4 != 0, w: flags & 2 != 0, x: flags & 1 != 0 });
+        cursor += len as u64;
+    }
+    segs
+}
+
+fn gen_start(rng: &mut Rng) -> u64 {
+    match rng.below(10) {
+        0 => 0,
+        1 => rng.below(4),
+        2 => 0x1000,
+        3 => 0xffff - rng.below(64),                 // around the 16-bit boundary
+        4 => 0xffff_ffff - rng.below(96),            // around the 32-bit boundary
+        5 => 0x7fff_ffff_ffff_ff00 + rng.below(256), // around the sign boundary
+        6 => u64::MAX - 512 - rng.below(256),        // high, ends stay below u64::MAX - 32
+        7 => 0x0804_8000 + rng.below(16),
+        8 => 0x40_0000 + rng.below(0x1000),
+        _ => rng.next_u64() >> rng.below(40),
+    }
+}
+
+fn gen_direct(rng: &mut Rng) -> Case {
+    let mut start = gen_start(rng);
+    if start > u64::MAX - 8192 * 6 {
+        start = u64::MAX - 8192 * 6;
+    }
+    // gaps of up to 4111 per segment: keep far from the top unless the layout is compact
+    let mut segs = gen_layout(rng, start, 5);
+    if rng.chance(1, 6) {
+        // an extra empty segment exactly at the base of another one / between adjacent ones / inside one
+        let host = rng.pick(&segs).clone();
+        let at = host.base + rng.below(host.bytes.len() as u64 + 1);
+        let flags = rng.below(8);
+        let pos = rng.usize_below(segs.len() + 1);
+        segs.insert(pos, Seg { base: at, bytes: vec![], r: flags & 4 != 0, w: flags & 2 != 0, x: flags & 1 != 0 });
+    }
+    if rng.chance(2, 5) {
+        rng.shuffle(&mut segs);
+    }
+    let le = rng.bool();
+    let max_end = segs.iter().map(|s| s.end()).max().unwrap_or(0);
+    let offset = if rng.chance(1, 4) {
+        let room = (u64::MAX - 64).saturating_sub(max_end);
+        let o = match rng.below(4) {
+            0 => 1,
+            1 => 0x10_0000,
+            2 => 0x10000 - rng.below(64),
+            _ => rng.next_u64() >> rng.below(48),
+        };
+        o.min(room)
+    } else {
+        0
+    };
+    let model = Model { segs: segs.iter().map(|s| Seg { base: s.base + offset, ..s.clone() }).collect(), le };
+    Case { source: Source::Direct { segs, le, is_lkm: rng.chance(1, 8), offset }, model, extra_sizes: rng.chance(1, 4) }
+}
+
+// ----- ELF writers
+
+struct W {
+    b: Vec<u8>,
+    le: bool,
+    is64: bool,
+}
+
+impl W {
+    fn u16(&mut self, v: u16) {
+        if self.le { self.b.extend_from_slice(&v.to_le_bytes()) } else { self.b.extend_from_slice(&v.to_be_bytes()) }
+    }
+    fn u32(&mut self, v: u32) {
+        if self.le { self.b.extend_from_slice(&v.to_le_bytes()) } else { self.b.extend_from_slice(&v.to_be_bytes()) }
+    }
+    fn u64(&mut self, v: u64) {
+        if self.le { self.b.extend_from_slice(&v.to_le_bytes()) } else { self.b.extend_from_slice(&v.to_be_bytes()) }
+    }
+    /// address-sized field
+    fn word(&mut self, v: u64) {
+        if self.is64 { self.u64(v) } else { self.u32(v as u32) }
+    }
+    fn header(&mut self, e_type: u16, machine: u16, phoff: u64, phnum: u16, shoff: u64, shnum: u16, shstrndx: u16) {
+        self.b.extend_from_slice(&[0x7f, b'E', b'L', b'F', if self.is64 { 2 } else { 1 }, if self.le { 1 } else { 2 }, 1, 0, 0, 0, 0, 0, 0, 0, 0, 0]);
+        self.u16(e_type);
+        self.u16(machine);
+        self.u32(1);
+        self.word(0); // entry
+        self.word(phoff);
+        self.word(shoff);
+        self.u32(0);
+        self.u16(if self.is64 { 64 } else { 52 });
+        self.u16(if self.is64 { 56 } else { 32 });
+        self.u16(phnum);
+        self.u16(if self.is64 { 64 } else { 40 });
+        self.u16(shnum);
+        self.u16(shstrndx);
+    }
+    fn phdr(&mut self, p_type: u32, flags: u32, offset: u64, vaddr: u64, filesz: u64, memsz: u64, align: u64) {
+        if self.is64 {
+            self.u32(p_type);
+            self.u32(flags);
+            self.u64(offset);
+            self.u64(vaddr);
+            self.u64(vaddr);
+            self.u64(filesz);
+            self.u64(memsz);
+            self.u64(align);
+        } else {
+            self.u32(p_type);
+            self.u32(offset as u32);
+            self.u32(vaddr as u32);
+            self.u32(vaddr as u32);
+            self.u32(filesz as u32);
+            self.u32(memsz as u32);
+            self.u32(flags);
+            self.u32(align as u32);
+        }
+    }
+    #[allow(clippy::too_many_arguments)]
+    fn shdr(&mut self, name: u32, sh_type: u32, flags: u64, addr: u64, offset: u64, size: u64, align: u64, entsize: u64) {
+        self.u32(name);
+        self.u32(sh_type);
+        self.word(flags);
+        self.word(addr);
+        self.word(offset);
+        self.word(size);
+        self.u32(0);
+        self.u32(0);
+        self.word(align);
+        self.word(entsize);
+    }
+}
+
+const PT_LOAD: u32 = 1;
+
+/// ET_EXEC / ET_DYN with PT_LOAD program headers (plus ignorable other headers).
+fn gen_elf_exec(rng: &mut Rng) -> Case {
+    let is64 = rng.bool();
+    let le = rng.bool();
+    let dynamic = rng.chance(1, 3);
+    let start = if is64 {
+        *rng.pick(&[0u64, 0x40_0000, 0x1_0000_0000 - 40, 0x5555_5555_4000, 0xffff_ffff_8000_0000, 0x1000])
+    } else {
+        *rng.pick(&[0u64, 0x0804_8000, 0x1_0000, 0xffff_0000, 0x1000])
+    } + rng.below(8);
+    let layout = loop {
+        let l = gen_layout(rng, start, 4);
+        // ELF32 files can only describe 32-bit addresses
+        if is64 || l.iter().all(|s| s.end() + 64 < (1u64 << 32)) {
+            break l;
+        }
+    };
+    // headers: loads (in address order or shuffled) mixed with other types
+    #[derive(Clone)]
+    struct Ph {
+        p_type: u32,
+        seg: Option<usize>,
+    }
+    let mut phs: Vec<Ph> = (0..layout.len()).map(|i| Ph { p_type: PT_LOAD, seg: Some(i) }).collect();
+    if rng.chance(1, 4) {
+        rng.shuffle(&mut phs);
+    }
+    for _ in 0..rng.below(3) {
+        let t = *rng.pick(&[0u32, 4, 6, 7, 0x6474_e551, 0x6474_e552, 0x6474_e550]);
+        let pos = rng.usize_below(phs.len() + 1);
+        phs.insert(pos, Ph { p_type: t, seg: None });
+    }
+    let ehsize = if is64 { 64 } else { 52 };
+    let phentsize = if is64 { 56 } else { 32 };
+    let data_start = ehsize + phentsize * phs.len();
+    // file payload: for each load segment choose filesz <= memsz
+    let mut payload: Vec<u8> = Vec::new();
+    let mut place: Vec<(u64, u64, u64)> = Vec::new(); // (offset, filesz, memsz) per layout segment
+    for (i, s) in layout.iter().enumerate() {
+        let memsz = s.bytes.len() as u64;
+        let filesz = match rng.below(4) {
+            0 => rng.below(memsz + 1), // partly zero-filled (.bss style)
+            1 => 0.min(memsz),
+            _ => memsz,
+        };
+        if i == 0 && rng.chance(1, 4) && filesz > 0 {
+            // first segment maps the start of the file (ELF header), as in real binaries
+            place.push((0, filesz.min(data_start as u64), memsz));
+            continue;
+        }
+        if rng.chance(1, 3) {
+            payload.extend(std::iter::repeat(0xEE).take(rng.usize_below(5)));
+        }
+        let off = (data_start + payload.len()) as u64;
+        payload.extend_from_slice(&s.bytes[..filesz as usize]);
+        place.push((off, filesz, memsz));
+    }
+    payload.extend(std::iter::repeat(0xDD).take(rng.usize_below(4)));
+    let mut w = W { b: Vec::new(), le, is64 };
+    w.header(if dynamic { 3 } else { 2 }, if is64 { 62 } else { 40 }, ehsize as u64, phs.len() as u16, 0, 0, 0);
+    for ph in &phs {
+        match ph.seg {
+            Some(i) => {
+                let s = &layout[i];
+                let flags = (s.r as u32) << 2 | (s.w as u32) << 1 | s.x as u32;
+                w.phdr(PT_LOAD, flags, place[i].0, s.base, place[i].1, place[i].2, *rng.pick(&[0u64, 1, 0x1000]));
+            }
+            None => {
+                // ignorable header pointing somewhere valid inside the file
+                w.phdr(ph.p_type, rng.below(8) as u32, ehsize as u64, start, rng.below(8), rng.below(64), 4);
+            }
+        }
+    }
+    w.b.extend_from_slice(&payload);
+    let file = w.b;
+    // model from the ELF specification of PT_LOAD
+    let segs: Vec<Seg> = phs
+        .iter()
+        .filter_map(|ph| ph.seg)
+        .map(|i| {
+            let (off, filesz, memsz) = place[i];
+            let mut bytes = file[off as usize..(off + filesz) as usize].to_vec();
+            bytes.resize(memsz as usize, 0);
+            Seg { base: layout[i].base, bytes, r: layout[i].r, w: layout[i].w, x: layout[i].x }
+        })
+        .collect();
+    let what = format!("elf-{}{}{}", if dynamic { "dyn" } else { "exec" }, if is64 { "64" } else { "32" }, if le { "le" } else { "be" });
+    Case { source: Source::Elf { file_hex: hex(&file), what, offset: 0, expect_lkm: false }, model: Model { segs, le }, extra_sizes: rng.chance(1, 4) }
+}
+
+const SHT_PROGBITS: u32 = 1;
+const SHT_STRTAB: u32 = 3;
+const SHT_NOTE: u32 = 7;
+const SHT_NOBITS: u32 = 8;
+const SHF_WRITE: u64 = 1;
+const SHF_ALLOC: u64 = 2;
+const SHF_EXEC: u64 = 4;
+
+/// ET_REL (kernel-module style) with section headers.
+fn gen_elf_rel(rng: &mut Rng) -> Case {
+    let is64 = rng.chance(3, 4);
+    let le = rng.chance(3, 4);
+    struct Sec {
+        name: &'static str,
+        sh_type: u32,
+        flags: u64,
+        size: usize,
+        align: u64,
+        data: Vec<u8>,
+    }
+    let pool: &[(&'static str, u32, u64)] = &[
+        (".text", SHT_PROGBITS, SHF_ALLOC | SHF_EXEC),
+        (".init.text", SHT_PROGBITS, SHF_ALLOC | SHF_EXEC),
+        (".rodata", SHT_PROGBITS, SHF_ALLOC),
+        (".rodata.str1.1", SHT_PROGBITS, SHF_ALLOC | 0x30),
+        (".rodata.str1.8", SHT_PROGBITS, SHF_ALLOC | 0x30),
+        ("__param", SHT_PROGBITS, SHF_ALLOC),
+        (".data", SHT_PROGBITS, SHF_ALLOC | SHF_WRITE),
+        (".bss", SHT_NOBITS, SHF_ALLOC | SHF_WRITE),
+        (".note.gnu.build-id", SHT_NOTE, SHF_ALLOC),
+        (".comment", SHT_PROGBITS, 0x30),
+        (".note.GNU-stack", SHT_PROGBITS, 0),
+        (".debug_info", SHT_PROGBITS, 0),
+        (".weird.wx", SHT_PROGBITS, SHF_ALLOC | SHF_WRITE | SHF_EXEC),
+        (".null.alloc", 0, SHF_ALLOC),
+        (".data..read_mostly", SHT_PROGBITS, SHF_ALLOC | SHF_WRITE),
+        (".unalloc.w", SHT_PROGBITS, SHF_WRITE),
+    ];
+    let mut names: Vec<(&'static str, u32, u64)> = Vec::new();
+    for p in pool {
+        if rng.chance(1, 2) {
+            names.push(*p);
+        }
+    }
+    let has_modinfo = rng.chance(3, 5);
+    let has_this_module = rng.chance(3, 5);
+    if has_modinfo {
+        names.push((".modinfo", SHT_PROGBITS, if rng.chance(1, 6) { 0 } else { SHF_ALLOC }));
+    }
+    if has_this_module {
+        names.push((".gnu.linkonce.this_module", SHT_PROGBITS, SHF_ALLOC | SHF_WRITE));
+    }
+    if rng.chance(1, 2) {
+        rng.shuffle(&mut names);
+    }
+    let mut secs: Vec<Sec> = Vec::new();
+    for (name, sh_type, flags) in names {
+        let size = gen_len(rng);
+        let mut align = *rng.pick(&[0u64, 1, 1, 2, 4, 8, 16, 32, 64]);
+        if size == 0 && flags & SHF_ALLOC != 0 {
+            align = align.min(1);
+        }
+        let data = if sh_type == SHT_NOBITS { vec![] } else if name == ".modinfo" {
+            let mut d = b"license=GPL\0author=x\0".to_vec();
+            d.resize(size, b'v');
+            d
+        } else {
+            gen_bytes(rng, size)
+        };
+        secs.push(Sec { name, sh_type, flags, size, align, data });
+    }
+    // string table
+    let mut shstr: Vec<u8> = vec![0];
+    let mut name_off: Vec<u32> = Vec::new();
+    for s in &secs {
+        name_off.push(shstr.len() as u32);
+        shstr.extend_from_slice(s.name.as_bytes());
+        shstr.push(0);
+    }
+    let shstr_name = shstr.len() as u32;
+    shstr.extend_from_slice(b".shstrtab\0");
+    // file layout: header, section data, shstrtab, section header table
+    let ehsize = if is64 { 64 } else { 52 };
+    let mut body: Vec<u8> = Vec::new();
+    let mut offs: Vec<u64> = Vec::new();
+    for s in &secs {
+        if rng.chance(1, 3) {
+            body.extend(std::iter::repeat(0xEE).take(rng.usize_below(4)));
+        }
+        offs.push((ehsize + body.len()) as u64);
+        body.extend_from_slice(&s.data);
+    }
+    let shstr_off = (ehsize + body.len()) as u64;
+    body.extend_from_slice(&shstr);
+    while (ehsize + body.len()) % 8 != 0 {
+        body.push(0);
+    }
+    let shoff = (ehsize + body.len()) as u64;
+    let shnum = secs.len() + 2;
+    let mut w = W { b: Vec::new(), le, is64 };
+    w.header(1, if is64 { 62 } else { 40 }, 0, 0, shoff, shnum as u16, (shnum - 1) as u16);
+    w.b.extend_from_slice(&body);
+    w.shdr(0, 0, 0, 0, 0, 0, 0, 0);
+    for (i, s) in secs.iter().enumerate() {
+        w.shdr(name_off[i], s.sh_type, s.flags, 0, offs[i], s.size as u64, s.align, 0);
+    }
+    w.shdr(shstr_name, SHT_STRTAB, 0, 0, shstr_off, shstr.len() as u64, 1, 0);
+    let file = w.b;
+    // model: Ghidra-style concatenation of the loaded sections
+    let mut next = 0u64;
+    let mut segs = Vec::new();
+    for s in &secs {
+        if s.flags & SHF_ALLOC == 0 || s.sh_type == 0 || s.size == 0 {
+            continue;
+        }
+        let al = s.align.max(1);
+        let base = next.div_ceil(al) * al;
+        let bytes = if s.sh_type == SHT_NOBITS { vec![0u8; s.size] } else { s.data.clone() };
+        segs.push(Seg { base, bytes, r: true, w: s.flags & SHF_WRITE != 0, x: s.flags & SHF_EXEC != 0 });
+        next = base + s.size as u64;
+    }
+    let offset = match rng.below(4) {
+        0 => 0,
+        1 => 0x10_0000,
+        2 => 0xffff_ffff_c000_0000,
+        _ => rng.below(0x1_0000_0000),
+    };
+    for s in segs.iter_mut() {
+        s.base += offset;
+    }
+    let what = format!("elf-rel{}{}", if is64 { "64" } else { "32" }, if le { "le" } else { "be" });
+    Case {
+        source: Source::Elf { file_hex: hex(&file), what, offset, expect_lkm: has_modinfo && has_this_module },
+        model: Model { segs, le },
+        extra_sizes: rng.chance(1, 4),
+    }
+}
+
+fn gen_bare_metal(rng: &mut Rng) -> Case {
+    let bits: u32 = *rng.pick(&[16u32, 24, 32, 32, 32, 64]);
+    let le = rng.bool();
+    let len = gen_len(rng) as u64;
+    let ram_size = gen_len(rng) as u64;
+    let top: u128 = 1u128 << bits;
+    // place flash and ram disjoint (adjacent or gapped, either order) below the top of the address space
+    let limit: u64 = if bits == 64 { u64::MAX - 64 } else { top as u64 };
+    let total = len + ram_size + 40;
+    let lowest = match rng.below(5) {
+        0 => 0,
+        1 => limit - total, // near the top
+        2 => 0x0800_0000u64.min(limit - total),
+        3 => 0x2000_0000u64.min(limit - total),
+        _ => rng.below(limit - total + 1),
+    };
+    let gap = *rng.pick(&[0u64, 0, 1, 2, 7, 32]);
+    let (mut flash_base, mut ram_base) = if rng.bool() { (lowest, lowest + len + gap) } else { (lowest + ram_size + gap, lowest) };
+    if bits < 64 && rng.chance(1, 10) {
+        // the binary ends exactly at the top of the address space (e.g. a 16-bit MCU whose flash ends at 0xFFFF)
+        flash_base = limit - len;
+        ram_base = lowest.min(flash_base.saturating_sub(ram_size + gap));
+    }
+    let fmt_hex = |rng: &mut Rng, v: u64| match rng.below(4) {
+        0 => format!("{v:x}"),
+        1 => format!("0x{v:X}"),
+        2 => format!("0x{v:08x}"),
+        _ => format!("0x{v:x}"),
+    };
+    let binary = gen_bytes(rng, len as usize);
+    let config = BareMetalConfig {
+        processor_id: format!("{}:{}:{}:{}", rng.pick(&["ARM", "MIPS", "TI_MSP430", "AARCH64"]), if le { "LE" } else { "BE" }, bits, rng.pick(&["default", "Cortex", "v8"])),
+        flash_base_address: fmt_hex(rng, flash_base),
+        ram_base_address: fmt_hex(rng, ram_base),
+        ram_size: fmt_hex(rng, ram_size),
+    };
+    let segs = vec![
+        Seg { base: flash_base, bytes: binary.clone(), r: true, w: true, x: true },
+        Seg { base: ram_base, bytes: vec![0; ram_size as usize], r: true, w: true, x: false },
+    ];
+    Case { source: Source::BareMetal { binary_hex: hex(&binary), config }, model: Model { segs, le }, extra_sizes: rng.chance(1, 4) }
+}
+
+/// A complete written-out case: the image plus a few concrete queries with expected and observed answers.
+fn sample_of(case: &Case) -> Value {
+    let model = &case.model;
+    let flat = Flat::new(model);
+    let mut queries = Vec::new();
+    if let Ok(Ok(img)) = build_image(&case.source) {
+        if let Some(seg) = model.segs.iter().find(|s| !s.bytes.is_empty()) {
+            for a in [seg.base, seg.end() - 1, seg.end()] {
+                let abv = addr_bv(a, 8);
+                let exp_read = match flat.range_in_one(a, 2) {
+                    Some(s) if model.segs[s].w => "Ok(None)".to_string(),
+                    Some(_) => format!("bytes {:02x} {:02x} in image byte order", flat.byte(a).unwrap_or(0), flat.byte(a + 1).unwrap_or(0)),
+                    None => "Err".to_string(),
+                };
+                queries.push(json!({
+                    "address": format!("{a:#x}"),
+                    "read(2) expected": exp_read,
+                    "read(2) observed": format!("{:?}", img.read(&abv, bs(2)).map_err(|e| e.to_string())),
+                    "containing segment (model)": flat.seg_of(a),
+                    "is_address_writeable observed": format!("{:?}", img.is_address_writeable(&abv).map_err(|e| e.to_string())),
+                    "string observed": format!("{:?}", img.read_string_until_null_terminator(&abv).map_err(|e| e.to_string())),
+                }));
+            }
+        }
+    }
+    json!({"source": source_kind(&case.source), "image": seg_desc(model), "segments": model.segs.iter().map(|s| json!({"base": format!("{:#x}", s.base), "bytes": hex(&s.bytes), "flags": format!("{}{}{}", if s.r {"r"} else {"-"}, if s.w {"w"} else {"-"}, if s.x {"x"} else {"-"})})).collect::<Vec<_>>(), "queries": queries})
+}
+
+fn model_ok(m: &Model) -> bool {
+    // generator self-check: disjoint, ends representable
+    let mut v: Vec<&Seg> = m.segs.iter().filter(|s| !s.bytes.is_empty()).collect();
+    v.sort_by_key(|s| s.base);
+    v.iter().all(|s| s.base.checked_add(s.bytes.len() as u64).map(|e| e <= u64::MAX - 32).unwrap_or(false)) && v.windows(2).all(|w| w[0].end() <= w[1].base)
+        && m.segs.iter().all(|s| s.base <= u64::MAX - 64)
+}
+
+fn run(cfg: &Cfg) -> Report {
+    let shards = cfg.tier.pick(128usize, 1024usize);
+    let per_shard = cfg.tier.pick(500u64, 5_000u64);
+    let mut rep = par_shards(cfg, "c19", shards, |idx, rng, rep| {
+        for k in 0..per_shard {
+            let case = match (idx + k as usize) % 8 {
+                0..=3 => gen_direct(rng),
+                4 | 5 => gen_elf_exec(rng),
+                6 => gen_elf_rel(rng),
+                _ => gen_bare_metal(rng),
+            };
+            if !model_ok(&case.model) {
+                rep.inconclusive("generator-produced-overlapping-or-unrepresentable-layout");
+                continue;
+            }
+            check_case(&case, rep);
+            if k == 0 && idx % 24 == 0 && rep.wants_sample() {
+                rep.sample(sample_of(&case));
+            }
+        }
+    });
+    // fixed witnesses: two adjacent read-only segments, string at the first byte of the second one
+    let w = Case {
+        source: Source::Direct {
+            segs: vec![
+                Seg { base: 0x1000, bytes: b"ab\0".to_vec(), r: true, w: false, x: false },
+                Seg { base: 0x1003, bytes: b"cd\0".to_vec(), r: true, w: false, x: false },
+            ],
+            le: true,
+            is_lkm: false,
+            offset: 0,
+        },
+        model: Model {
+            segs: vec![
+                Seg { base: 0x1000, bytes: b"ab\0".to_vec(), r: true, w: false, x: false },
+                Seg { base: 0x1003, bytes: b"cd\0".to_vec(), r: true, w: false, x: false },
+            ],
+            le: true,
+        },
+        extra_sizes: true,
+    };
+    check_case(&w, &mut rep);
+    rep.sample(json!({"source":"direct","image": seg_desc(&w.model), "query":"read_string_until_null_terminator(0x1003)", "expected":"Ok(\"cd\")"}));
+    rep
+}
+
+fn replay(_cfg: &Cfg, case: &Value) -> Report {
+    let mut rep = Report::new();
+    match serde_json::from_value::<Case>(case.clone()) {
+        Ok(c) => check_case(&c, &mut rep),
+        Err(e) => rep.note(format!("cannot parse replay case: {e}")),
+    }
+    rep
 }
